@@ -23,7 +23,7 @@ RULE = (
 )
 ASSUMPTIONS = ["dependencies are those reported by dask._task_spec after convert_legacy_graph", "sync scheduler for persist/compute"]
 
-EXCLUDE = ("KF-layout-drift-over-shuffle", "KF-setitem-int-with-negstep", "KF-layout-drift-over-window-reduction", "KF-pad-wide", "KF-swv-over-higher-order-diff")
+EXCLUDE = ("KF-layout-drift-over-shuffle", "KF-setitem-int-with-negstep", "KF-layout-drift-over-window-reduction", "KF-pad-wide", "KF-swv-over-higher-order-diff", "KF-reshape-zero-size")
 
 
 def _grid(name, numblocks):
